@@ -10,7 +10,7 @@ every theory wired into OpenSystem.get_RelaxationTensor has an obligation.
 import ast
 import itertools
 
-from ..loader import AnalysisError, norm, calls_in, walk_no_nested
+from ..loader import AnalysisError, norm, calls_in, walk_no_nested, call_name
 from ..ta import Expr, Array, Facts, normal, show_normal
 from ..ta_front import Interp, Obj
 from . import tensors
